@@ -10,8 +10,19 @@ commute (any two faces of the periodic 4.8.8 tiling share an even number of qubi
 and the degenerate `L = 1` torus included), whose four logical pairs commute with the stabilizers
 and have the pairing table `ω(X_i, Z_j) = δ_ij`; `n = 8L²`, `k = 4`,
 `n_stabilizers = 2(2L+1)²`; `get_deformation` follows the stated rule at every location.
+
+Rank clause, for all sizes: the `8L² − 4 = n − k` generators of the family `sel L` (X and Z generator
+of every face centre in `[0, 8L)²` but the green octagon `(0, 4)` and the blue octagon `(4, 0)`;
+the other `2(2L+1)² − (8L² − 4)` listed generators are seam copies or products) are independent
+(`rank_family`, triangular single-qubit probes along a peeling order of the torus).  `valid_code`
+puts everything together through the generic bridges `Proofs/OpComm.lean`, `Proofs/Lat2DRankBridge.lean`
+and `Proofs/Lat2DRankSubset.lean`: the matrices that `stabilizer_matrix`, `logicals_x`, `logicals_z`
+of the generic code model (`Model/Code.lean`, C02) assemble from this lattice model form a valid
+`[[8L², 4]]` stabilizer code (`ValidCodeL`: all four clauses of C01, rank included) for EVERY
+square size.
 -/
-import PanqecVerif.Proofs.LatColor488CodeE
+import PanqecVerif.Proofs.Lat2DRankSubset
+import PanqecVerif.Proofs.LatColor488CodeRank2
 
 namespace Panqec.C01Color488Code
 open Panqec.Color488Code Panqec.Lat2D Panqec.Color
@@ -41,6 +52,31 @@ theorem k_value (L : Nat) : (lattice L L).toCodeData.k = 4 := rfl
     face centres (the rows `x = 8L`, `y = 8L` repeat the rows `x = 0`, `y = 0`) -/
 theorem n_stabilizers (L : Nat) : (lattice L L).stabs.length = 2 * ((2 * L + 1) * (2 * L + 1)) :=
   length_stabs L
+
+/-- rank clause, operator level: an explicit duplicate-free family of `n − k` stabilizer locations
+    whose generators are independent — every non-empty duplicate-free sub-family `T` has a Pauli
+    operator `d` on the qubits anticommuting with an odd number of members of `T` — every `L ≥ 1` -/
+theorem rank_family (L : Nat) (hL : 1 ≤ L) :
+    (sel L).Nodup ∧ (∀ s ∈ sel L, s ∈ (lattice L L).stabs) ∧
+    IndepGenerators (lattice L L) (sel L) ∧
+    (sel L).length + (lattice L L).toCodeData.k = (lattice L L).toCodeData.n :=
+  ⟨nodup_sel L, sel_subset, indep_sel hL, by rw [n_formula L hL, k_value]; exact length_sel hL⟩
+
+/-- THE C01 STATEMENT FOR ALL SQUARE SIZES (`L ≥ 1`): `stabilizer_matrix`, `logicals_x`,
+    `logicals_z` of the generic code model, applied to this lattice model, return (no `KeyError`)
+    matrices that form a valid `[[8L², 4]]` stabilizer code: generators pairwise commute, logicals
+    commute with the generators, `ω(X_i, Z_j) = δ_ij`, `ω(X_i, X_j) = ω(Z_i, Z_j) = 0`, and the
+    generators have GF(2) rank `n − k` -/
+theorem valid_code (L : Nat) (hL : 1 ≤ L) :
+    stabilizerMatrix (lattice L L).toCodeData = some (lattice L L).rowsH ∧
+    logicalsX (lattice L L).toCodeData = some (lattice L L).rowsX ∧
+    logicalsZ (lattice L L).toCodeData = some (lattice L L).rowsZ ∧
+    ValidCodeL (8 * (L * L)) 4
+      (lattice L L).rowsH (lattice L L).rowsX (lattice L L).rowsZ := by
+  obtain ⟨h1, h2, h3, h4⟩ := rank_family L hL
+  have h := validCode_of_lattice_subset (lattice L L) (wf L hL) (commPair L hL) (sel L) h1 h2 h3 h4
+  rw [n_formula L hL, k_value] at h
+  exact h
 
 /-- `is_stabilizer` in closed form -/
 theorem isStabilizer_rule (L : Nat) (x y p : Int) :
@@ -135,6 +171,12 @@ example : (lattice 1 1).logX = [[([3, 3], .X), ([3, 5], .X)], [([7, 1], .X), ([7
     [([3, 5], .X), ([5, 5], .X)], [([1, 1], .X), ([7, 1], .X)]] := by decide
 example : (lattice 3 3).toCodeData.n = 72 := n_formula 3 (by decide)
 example : (lattice 3 3).stabs.length = 98 := n_stabilizers 3
+example : IndepGenerators (lattice 2 2) (sel 2) := (rank_family 2 (by decide)).2.2.1
+example : (sel 2).length = 28 := by decide
+example : ValidCodeL 8 4 (lattice 1 1).rowsH (lattice 1 1).rowsX (lattice 1 1).rowsZ :=
+  (valid_code 1 (by decide)).2.2.2
+example : ValidCodeL 72 4 (lattice 3 3).rowsH (lattice 3 3).rowsX (lattice 3 3).rowsZ :=
+  (valid_code 3 (by decide)).2.2.2
 example : getDeformation "XXZZ" [7, 1] = DeformResult.map PauliMap.swapXZ := by decide
 example : getDeformation "XXZZ" [7, 7] = DeformResult.map PauliMap.id := by decide
 example : getDeformation "XZZX" [7, 7] = DeformResult.valueError := by decide
